@@ -5,5 +5,5 @@ CONSTANTS
   ListAlphabet = {97, 39, 32, 92, 34, 10}
   MaxItem = 2
   MaxItems = 3
-INVARIANTS AlgQuoteOK AlgJoinOK EmitInput
+INVARIANTS AlgQuoteOK AlgJoinOK EvalFastOK EmitInput
 CHECK_DEADLOCK FALSE
